@@ -29,6 +29,16 @@ CLAIMED = {
         note=BASE_NOTE + 'linear-exactness theorem is stated for ascending sources (descending = reversed; sum/non-negativity proved for both); application along an axis is exercised through interpSigma only.',
         technique='Lean 4 proof (structural induction, telescoping sums, linarith/field_simp over Q) + model/implementation correspondence',
         design='§7 C17'),
+    'C16': dict(
+        text=('Lean theorems over Q for the value-to-index core (fractional position by segment search, round-half-even '
+              '/ truncate-and-clamp): the rounded index is a nearest coordinate, the truncated index names a cell whose '
+              'edges contain the value, nodes map to their own index - for ascending and descending coordinates, all '
+              'lengths; model-level lemmas tie the lookup model to that core; exact correspondence of the whole model '
+              '(three bounds representations, methods, left/right, clean, bounds modes, warnings/errors) with val2idx on '
+              'every run. Three genuine defects were repaired by fix: commits.'),
+        note=BASE_NOTE + 'np.interp exactness on power-of-two spacings, margin stream elsewhere; datetime front-ends are covered under C12.',
+        technique='Lean 4 proof (structural induction over the coordinate list, linarith over Q) + model/implementation correspondence',
+        design='§7 C16'),
 }
 
 NOT_YET = {}
